@@ -327,15 +327,38 @@ impl ASN1Type {
         }
     }
 
-    /// Does `self`, at any depth, refer to the type `name`?
-    fn refers_to(&self, name: &str) -> bool {
+    /// Does `self`, at any depth, refer to the type `name`, directly or through the
+    /// parameterized types it references (`P {T} ::= Q {T}`, `Q {T} ::= P {T}`)?
+    fn refers_to<'a>(
+        &'a self,
+        name: &str,
+        tlds: &'a BTreeMap<String, ToplevelDefinition>,
+        via: &mut Vec<&'a str>,
+    ) -> bool {
         match self {
-            ASN1Type::ElsewhereDeclaredType(e) => e.identifier == name,
-            ASN1Type::Choice(c) => c.options.iter().any(|o| o.ty.refers_to(name)),
-            ASN1Type::Set(s) | ASN1Type::Sequence(s) => {
-                s.members.iter().any(|m| m.ty.refers_to(name))
+            ASN1Type::ElsewhereDeclaredType(e) => {
+                if e.identifier == name {
+                    return true;
+                }
+                match tlds.get(&e.identifier) {
+                    Some(ToplevelDefinition::Type(ToplevelTypeDefinition {
+                        ty,
+                        parameterization: Some(_),
+                        ..
+                    })) if !via.contains(&e.identifier.as_str()) => {
+                        via.push(&e.identifier);
+                        ty.refers_to(name, tlds, via)
+                    }
+                    _ => false,
+                }
             }
-            ASN1Type::SequenceOf(so) | ASN1Type::SetOf(so) => so.element_type.refers_to(name),
+            ASN1Type::Choice(c) => c.options.iter().any(|o| o.ty.refers_to(name, tlds, via)),
+            ASN1Type::Set(s) | ASN1Type::Sequence(s) => {
+                s.members.iter().any(|m| m.ty.refers_to(name, tlds, via))
+            }
+            ASN1Type::SequenceOf(so) | ASN1Type::SetOf(so) => {
+                so.element_type.refers_to(name, tlds, via)
+            }
             _ => false,
         }
     }
@@ -492,7 +515,7 @@ impl ASN1Type {
                 parameterization: Some(Parameterization { parameters }),
                 ..
             })) => {
-                if ty.refers_to(identifier) {
+                if ty.refers_to(identifier, tlds, &mut Vec::new()) {
                     // `P {T} ::= SEQUENCE { .., next P {T} OPTIONAL }`: instantiating the template
                     // would instantiate it again, without end
                     return Err(grammar_error!(
